@@ -2,16 +2,73 @@ package checks
 
 import (
 	"crypto/sha256"
+	"encoding/json"
 	"fmt"
 	"os"
 	"path/filepath"
+	"regexp"
 	"sort"
 	"strings"
+	"time"
 
+	"kverif/internal/load"
 	"kverif/internal/symx"
 )
 
 func init() { Registry["C15"] = checkC15 }
+
+// fsObs is what the native fault-injection replay observed.
+type fsObs struct {
+	ChildExit int               `json:"child_exit"`
+	ChildErr  bool              `json:"child_err"`
+	Dest      map[string]string `json:"dest"`
+	TempLeft  []string          `json:"temp_left"`
+	Trace     []string          `json:"trace"`
+	SecondRun string            `json:"second_run"`
+}
+
+var osCallRe = regexp.MustCompile(`\bos\.(MkdirAll|CreateTemp|Chmod|Rename|Remove|WriteFile|Create)\(`)
+
+// prepareFSReplay routes install.go's os calls through the shim (mechanical
+// rewrite of the current source in the scratch copy).
+func prepareFSReplay(k *Kernel) error {
+	dir := filepath.Join(k.S.Repo, "internal/llmsetup")
+	src, err := os.ReadFile(filepath.Join(dir, "install.go"))
+	if err != nil {
+		return err
+	}
+	if err := os.WriteFile(filepath.Join(dir, "install.go"), osCallRe.ReplaceAll(src, []byte("verifos.$1(")), 0o644); err != nil {
+		return err
+	}
+	for from, to := range map[string]string{"llmsetup_shim.go.txt": "zz_verif_shim.go", "llmsetup_shim_test.go.txt": "zz_verif_shim_test.go"} {
+		data, err := os.ReadFile(filepath.Join(load.VerifDir(), "harness", from))
+		if err != nil {
+			return err
+		}
+		if err := os.WriteFile(filepath.Join(dir, to), data, 0o644); err != nil {
+			return err
+		}
+	}
+	return nil
+}
+
+func replayFS(k *Kernel, crashAt, faultAt int, short bool) (*fsObs, error) {
+	sw := "0"
+	if short {
+		sw = "1"
+	}
+	env := []string{"VERIF_FS_REPLAY=1", fmt.Sprintf("VERIF_CRASH_AT_R=%d", crashAt), fmt.Sprintf("VERIF_FAULT_AT_R=%d", faultAt), "VERIF_SHORT_WRITE_R=" + sw}
+	out, err := load.Run(k.S.Repo, true, 3*time.Minute, env, "go", "test", "-vet=off", "-count=1", "-run", "^TestVerifFSReplay$", "-v", "./internal/llmsetup")
+	for _, l := range strings.Split(string(out), "\n") {
+		if i := strings.Index(l, "VERIF-FS-OBS "); i >= 0 {
+			var o fsObs
+			if json.Unmarshal([]byte(l[i+len("VERIF-FS-OBS "):]), &o) == nil {
+				return &o, nil
+			}
+		}
+	}
+	return nil, fmt.Errorf("no observation (%v): %s", err, lastLines(string(out), 6))
+}
 
 type embTree struct {
 	rel  []string          // relative paths, sorted
@@ -70,15 +127,33 @@ func checkC15(c *Ctx) error {
 	crashSteps := map[int]bool{}
 	faultSteps := map[string]bool{}
 	reported := map[string]bool{}
+	type pendingV struct {
+		sig          map[string]string
+		art          map[string]any
+		crash, fault int
+		short        bool
+	}
+	var pend []pendingV
+	cur := struct {
+		crash, fault int
+		short        bool
+	}{-1, -1, false}
 	violation := func(sig map[string]string, art map[string]any) {
 		key := sigString(sig)
 		if reported[key] {
 			return
 		}
 		reported[key] = true
-		c.Sample(map[string]any{"violation": sig, "detail": art})
-		c.Report(sig, art, "C15-"+strings.ReplaceAll(sig["kind"], " ", "-")+"-"+sig["after"])
+		pend = append(pend, pendingV{sig, art, cur.crash, cur.fault, cur.short})
 	}
+	type valPoint struct {
+		crash, fault int
+		short        bool
+		dest         map[string]string
+		trace        []string
+		errNil       bool
+	}
+	var valPoints []valPoint
 	for _, ai := range agents {
 		for baseClass := 0; baseClass <= 1; baseClass++ {
 			ai, baseClass := ai, baseClass
@@ -91,6 +166,10 @@ func checkC15(c *Ctx) error {
 			}, func(ps *symx.PathState, r *symx.PathResult) {
 				m := ps.User.(*symx.FSModel)
 				paths++
+				cur.crash, cur.fault, cur.short = -1, m.Faulted, m.ShortWrite
+				if m.Crashed {
+					cur.crash = m.CrashStep
+				}
 				dest := func(rel string) string { return filepath.Join(base, "kessoku-di", rel) }
 				lastOp := "start"
 				if len(m.Events) > 0 {
@@ -159,12 +238,98 @@ func checkC15(c *Ctx) error {
 				default:
 					c.Inconclusive(fmt.Sprintf("agent %d base-class %d: path outcome %s", ai, baseClass, r.Outcome))
 				}
+				// sample of model paths to be compared with native runs (translator validation)
+				if ai == 0 && baseClass == 0 && (paths%29 == 3 || (!m.Crashed && m.Faulted < 0)) && len(valPoints) < 8 {
+					vp := valPoint{crash: cur.crash, fault: cur.fault, short: cur.short, dest: map[string]string{}}
+					for _, rel := range tree.rel {
+						n := m.Nodes[dest(rel)]
+						switch {
+						case n == nil:
+							vp.dest[rel] = "absent"
+						case n.Content == "full:"+tree.hash[rel] && n.Mode == 0o644:
+							vp.dest[rel] = "full/644"
+						default:
+							vp.dest[rel] = "other"
+						}
+					}
+					for _, ev := range m.Events {
+						if ev.Op != "stat" && ev.Op != "write-interrupted" {
+							vp.trace = append(vp.trace, ev.Op)
+						}
+					}
+					if strings.HasPrefix(r.Outcome, "ok") {
+						vp.errNil = symx.IsNilIface(symx.TupleAt(r.Ret, 1))
+					}
+					valPoints = append(valPoints, vp)
+				}
 				if paths == 40 {
 					c.Sample(map[string]any{"path": paths, "crashed": m.Crashed, "fault_at": m.Faulted, "fault_op": m.FaultOp, "trace": trace()})
 				}
 			})
 			_ = results
 		}
+	}
+	// --- native replay: confirm counterexamples, validate the filesystem stubs ----
+	if err := prepareFSReplay(k); err != nil {
+		return err
+	}
+	validated, mismatches := 0, []string{}
+	for _, vp := range valPoints {
+		o, err := replayFS(k, vp.crash, vp.fault, vp.short)
+		if err != nil {
+			mismatches = append(mismatches, "native run failed: "+err.Error())
+			continue
+		}
+		validated++
+		for rel, want := range vp.dest {
+			got := o.Dest[rel]
+			if strings.HasPrefix(got, "other") {
+				got = "other"
+			}
+			if got != want {
+				mismatches = append(mismatches, fmt.Sprintf("crash=%d fault=%d: %s is %s natively, %s in the model", vp.crash, vp.fault, rel, o.Dest[rel], want))
+			}
+		}
+		if vp.crash < 0 && strings.Join(o.Trace, ",") != strings.Join(vp.trace, ",") {
+			mismatches = append(mismatches, fmt.Sprintf("fault=%d: native operation trace %v differs from the model's %v", vp.fault, o.Trace, vp.trace))
+		}
+		if vp.crash < 0 && o.ChildErr == vp.errNil {
+			mismatches = append(mismatches, fmt.Sprintf("fault=%d: error reported natively=%v, model=%v", vp.fault, o.ChildErr, !vp.errNil))
+		}
+	}
+	c.Coverage["traces_validated_against_impl"] = validated
+	c.Coverage["stub_validation_mismatches"] = mismatches
+	for _, p := range pend {
+		if c.MatchKnown(p.sig) == nil {
+			o, err := replayFS(k, p.crash, p.fault, p.short)
+			confirmed := false
+			if err == nil {
+				switch p.sig["kind"] {
+				case "destination not atomic":
+					for _, s := range o.Dest {
+						if strings.HasPrefix(s, "other") {
+							confirmed = true
+						}
+					}
+				case "temporary file left behind":
+					confirmed = len(o.TempLeft) > 0
+				case "failure not reported":
+					confirmed = p.fault >= 0 && o.ChildExit == 0
+				case "installation incomplete", "fault-free run fails":
+					confirmed = o.SecondRun != "complete" || o.ChildExit != 0
+				}
+				p.art["native_observation"] = o
+			}
+			if !confirmed {
+				c.Inconclusive(fmt.Sprintf("UNCONFIRMED counterexample %s (crash=%d fault=%d): native fault injection did not reproduce it (%v)", sigString(p.sig), p.crash, p.fault, err))
+				continue
+			}
+		}
+		c.Sample(map[string]any{"violation": p.sig, "detail": p.art})
+		c.Report(p.sig, p.art, "C15-"+strings.ReplaceAll(p.sig["kind"], " ", "-")+"-"+p.sig["after"])
+	}
+	if len(mismatches) > 0 {
+		return fmt.Errorf("filesystem stub validation failed: %s", mismatches[0])
 	}
 	engineCoverage(c, k.E, "")
 	c.Coverage["explanation"] = fmt.Sprintf("Symbolic execution of the real Install/InstallFile (go/ssa, including the deferred cleanup closure) with every os call replaced by a nondeterministic stub: the crash position and the failing step are symbolic integers, every branch on them is decided by z3; %d paths = %d crash points (between and inside steps) + %d single-fault runs (incl. short writes) + %d fault-free runs over the embedded tree of %d files; obligations per path are evaluated on the model filesystem: every destination is untouched or complete with mode 0644 at any crash/failure, a failure is reported and leaves no temp file, a fault-free run installs the complete tree.", paths, crashes, faults, clean, len(tree.rel))
